@@ -25,7 +25,7 @@ var whoMayCall = map[string]struct {
 	"(*net/http.Client).Do": {[]string{"queryer.(*MultiOpQueryer).sendRequest"},
 		"single HTTP send point; a retry written in this module would have to appear here (C06, C11, C12). Not covered: net/http itself re-sends the POST body when the service answers 307/308 (no CheckRedirect is set) — a redirect is the service's own instruction, so the claim is about sends the gateway decides on (audit: observed, 3 deliveries for a 307 chain)"},
 	"(github.com/gobwas/ws.Dialer).Dial": {[]string{"queryer.(*MultiOpQueryer).Subscribe"},
-		"single upstream websocket dial point (C17, C18)"},
+		"single upstream websocket dial point (C17, C18); ws.Dial and the net dialers are counted as calls of it (callFamily)"},
 	"github.com/buildbuildio/pebbles/queryer.Queryer.Query": {[]string{"executor.(*DepthExecutor).executeRequests", "introspection.introspectRemoteSchema"},
 		"one batched call per (depth, service group) and one introspection call per service (C06, C12)"},
 	"github.com/buildbuildio/pebbles/queryer.Queryer.Subscribe": {[]string{"pebbles.(*Gateway).newSubscriptionEntry"},
@@ -43,7 +43,7 @@ var whoMayCall = map[string]struct {
 	"merger.(TypeURLMap).SetTypeIsImplementsNode": {[]string{"merger.(TypeURLMap).SetFromSchema"},
 		"Node marking happens during merge only (C04)"},
 	"time.Now": {[]string{"planner.(*CachedPlanner).*"},
-		"wall-clock time is used by the plan cache's TTL only (C13)"},
+		"wall-clock time is used by the plan cache's TTL only (C13); the entry stands for every source of run-to-run variation: time.Since/Until and the random-number packages are counted as calls of it (callFamily)"},
 }
 
 // goSites: the frozen list of goroutine spawn sites (function containing the go statement →
@@ -53,7 +53,7 @@ var goSites = map[string]tabEntry{
 	"common.AsyncMapReduce":                  {2, "workers and the single reducer of the fan-out helper (protocol checked by R1)"},
 	"queryer.(*MultiOpQueryer).Subscribe":    {2, "upstream closer and upstream reader (R8)"},
 	"pebbles.(subscriptionDict).Clean":       {1, "Close() of a stopped subscription runs detached so that the handler loop is not blocked (R8)"},
-	"pebbles.(*Gateway).subscriptionHandler": {2, "one heartbeat per connection_init (all cancelled when the handler returns) and one Listen goroutine per start; a start that reuses an id first stops the entry it replaces (repair bf39264, rule R8e), so every Listen stays reachable for stop/terminate/teardown"},
+	"pebbles.(*Gateway).subscriptionHandler": {2, "one heartbeat per connection_init (nothing bounds how many inits a client sends — 20000 inits give 20000 heartbeat goroutines, each a further unlocked writer, see F15 — but all of them are cancelled when the handler returns: none outlives the connection) and one Listen goroutine per start; a start that reuses an id first stops the entry it replaces (repair bf39264, rule R8e), so every Listen stays reachable for stop/terminate/teardown"},
 }
 
 // callFamily: other entry points that do what a listed callee does; a call of any of them is
